@@ -714,6 +714,9 @@ func TestCertStoreLinearizable(t *testing.T) {
 	for round := 0; round < rounds; round++ {
 		for _, cfg := range plan {
 			cfg.puts, cfg.readers = puts+rng.Intn(puts/4+1), nread
+			if m := 2*cfg.procs + 2; cfg.readers > m { // few processors: fewer goroutines compete with the writers
+				cfg.readers = m
+			}
 			if cfg.mode == "gated" {
 				cfg.puts = cfg.puts / 2
 			}
